@@ -40,6 +40,7 @@ void c01_chan_edges(void *chan, c01_edge_fn fn, void *u) {
     c01_q_fibers(&c->write_pending, fn, u, "channel.write_pending");
     Janet *d = c->items.data;
     int32_t n = janet_q_count(&c->items);
+    /* items stored below the read position belong to the part of the ring that has wrapped round */
     for (int32_t k = 0, i = c->items.head; k < n; k++, i = (i + 1 == c->items.capacity) ? 0 : i + 1)
-        fn(u, d[i], "channel.item");
+        fn(u, d[i], i < c->items.head ? "channel.item.wrapped" : "channel.item");
 }
